@@ -122,6 +122,19 @@ def run_impl(p):
         o["windows"] = guarded(lambda: [[int(x) for x in packed.sliding_window(w)] for w in p["ws"]])
         o["data"] = guarded(lambda: [int(x) for x in packed._data])
         o["input_unmodified"] = canon(bool(np.array_equal(arr, before)))
+        def independent():
+            # what unpack / a list selection / sliding_window hands out belongs to the caller: overwriting it must not change
+            # the packed array
+            ref = [int(x) for x in packed._data]
+            for get in (lambda: packed.unpack(), lambda: packed.sliding_window(p["ws"][0]) if p["ws"] else packed.unpack(),
+                        lambda: packed[list(p["is"])].unpack() if p["is"] else packed.unpack()):
+                d = get()
+                if isinstance(d, np.ndarray) and d.size and d.flags.writeable:
+                    d[...] = d[::-1].copy() + 1
+                if [int(x) for x in packed._data] != ref or [int(x) for x in packed.unpack()] != list(p["a"]):
+                    return False
+            return True
+        o["results_independent"] = guarded(lambda: canon(independent()))
         return o
     return guarded(f)
 
@@ -139,6 +152,7 @@ def oracle(p):
     o["windows"] = {"k": "list", "v": [canon([(st >> (b * i)) % (1 << (w * b)) for i in range(len(a) - w + 1)]) for w in p["ws"]]}
     o["data"] = canon([(st >> (64 * r)) % (1 << 64) for r in range(-(-len(a) // n))])
     o["input_unmodified"] = canon(True)
+    o["results_independent"] = canon(True)
     return o
 
 
